@@ -749,6 +749,7 @@ pub fn generate(what: &str, seed: u64, tier: &str) -> Vec<String> {
         "fmt" => crate::gen_red::gen_fmt(seed, tier),
         "tokens" => crate::gen_red::gen_tokens(seed, tier),
         "text" => crate::gen_red::gen_text(seed, tier),
+        "serde" => crate::gen_red::gen_serde(seed, tier),
         "greeneq" => gen_greeneq(seed, tier),
         "faults" => gen_faults(seed, tier),
         "checkpoints" => gen_checkpoints(seed, tier),
